@@ -254,6 +254,23 @@ Definition delitem (st : tstate) (k : key) : res (list nat) :=
             end
   end.
 
+(* ---- clone queries through the index (node.py:413-418, 481-483) ---------- *)
+(* Node.is_clone: len(self._tree._nodes_by_data_id.get(self._data_id)) > 1;
+   a missing group makes len(None) raise TypeError *)
+Definition node_is_clone (st : tstate) (n : rt) : res bool :=
+  match idx_get (rdid n) (t_idx st) with
+  | Some g => Ok (Nat.ltb 1 (length g))
+  | None => Err EType
+  end.
+
+(* Node.get_clones(add_self): the group, or [c for c in group if c is not self];
+   a missing group is a KeyError *)
+Definition node_get_clones (st : tstate) (n : rt) (add_self : bool) : res (list nat) :=
+  match idx_get (rdid n) (t_idx st) with
+  | Some g => Ok (if add_self then g else filter (fun x => negb (Nat.eqb x (rid n))) g)
+  | None => Err EKey
+  end.
+
 (* ---- start node resolution (used by the case runner) ------------------ *)
 Definition start_of (f : forest) (n : nat) : option start :=
   if Nat.eqb n 0 then Some SRoot else option_map SNode (find_node n f).
